@@ -231,6 +231,8 @@ class IEvent:
     def set(self):
         self.sched.point(("set", self.name))
         self.flag = True
+        # the waiter may wake before the setter executes its next statement
+        self.sched.point(("set-done", self.name))
 
     def clear(self):
         self.sched.point(("clear", self.name))
